@@ -3,6 +3,7 @@ CONSTANTS
   Tokens <- MCTokens
   MaxLen = 5
   Comps <- MCComps
+  Pool <- MCPool
 INVARIANT Laws
 INVARIANT Emit
 CHECK_DEADLOCK FALSE
